@@ -45,7 +45,7 @@ func (cx *Ctx) isErrorReply(c ssa.CallInstruction) bool {
 	if cx.Fx.replyAct(c) == "ErrorFunc" {
 		return true
 	}
-	f := calleeOf(c)
+	f := cx.moduleCallee(c)
 	if f == nil {
 		return false
 	}
@@ -56,7 +56,22 @@ func (cx *Ctx) isErrorReply(c ssa.CallInstruction) bool {
 	case "provider.(*LogoutResponse).sendBackLogoutResponse":
 		resp = c.Common().Args[2]
 	default:
-		return false
+		// a helper (e.g. a local closure shared by several callbacks) that itself performs exactly one error reply
+		s := cx.emitSummaryOf(f, nil)
+		if !s.Decided || len(s.Paths) == 0 {
+			return false
+		}
+		for _, p := range s.Paths {
+			if p.count() != 1 {
+				return false
+			}
+			for i, a := range p.Acts {
+				if !p.Failed[i] && !cx.isErrorReply(a.Call) {
+					return false
+				}
+			}
+		}
+		return true
 	}
 	mc, ok := resp.(*ssa.Call)
 	if !ok {
@@ -263,10 +278,10 @@ func checkC10(cx *Ctx, r *Report) {
 	cx.checkStatusGlobals(r)
 
 	// --- key shapes ---------------------------------------------------------------------------
-	for _, g := range []struct{ fn, method string }{{"provider.getResponseCert", "GetResponseSigningKey"}, {"provider.getMetadataCert", "GetMetadataSigningKey"}} {
-		fn := w.Func(g.fn)
+	for _, g := range []struct{ fn, method string }{{"key-getter:response", "GetResponseSigningKey"}, {"key-getter:metadata", "GetMetadataSigningKey"}} {
+		fn := cx.fnCallingStorage(g.method)
 		if fn == nil {
-			r.Fail("R-GUARD", g.fn, "", "anchor function not found")
+			r.Fail("R-GUARD", g.fn, "", "no function in handler-reachable code calls Storage."+g.method)
 			continue
 		}
 		aps, ok := fx.atomPaths(fn, 4096)
